@@ -113,7 +113,9 @@ def in_params(sig):
 
 
 def out_params(sig):
-    return [p for p in sig.params if p.intent in ("out", "inout")]
+    """the arguments handed back to the Python caller: a `hidden` argument is documented to stay out of the wrapped API
+    (its value is used by the wrapper only, e.g. as an extent), so an intent(out)+hidden argument is not returned"""
+    return [p for p in sig.params if p.intent in ("out", "inout") and not p.attrs.get("hidden")]
 
 
 UNIT_BITS = {"i": 32, "l": 64, "d": 64, "f": 32, "h": 16, "b": 8, "L": 64, "n": 64, "I": 32, "k": 64, "H": 16, "B": 8}
@@ -1134,8 +1136,10 @@ class PyHarness(object):
         want = []
         if sig.result is not None:
             want.append(("result", sig.result, rinfo))
+        handed_back = set(p.name for p in out_params(sig))
         for (nm, v) in rinfo["outs"]:
-            want.append(("out", nm, v))
+            if nm in handed_back:          # an intent(out)+hidden argument stays inside the wrapper
+                want.append(("out", nm, v))
         if not want:
             if not (isinstance(r, Ptr) and r.obj is not None and r.obj.tag.get("symbol") == "_Py_NoneStruct"):
                 return "a void function does not return None"
@@ -1356,6 +1360,7 @@ def native_call(w):
                'int bump(int *v, int n) { printf("LIB"); for (int i = 0; i < n; i++) { printf(" %d", v[i]); v[i] += 1; } printf(" | %d\\n", n); return 6; }',
                'int sumdef(const int *x, int n, int scale) { printf("LIB"); for (int i = 0; i < n; i++) printf(" %d", x[i]); printf(" | %d %d\\n", n, scale); return 29; }',
                'size_t findPos(int k) { printf("LIB %d\\n", k); return (size_t) -1; }',
+               'int clamp(int v, int *flag) { printf("LIB %d\\n", v); *flag = 1; return 10; }',
                'int Tally::total() { printf("LIB\\n"); return 41; }',
                'int Tally::scaled(int k) { printf("LIB %d\\n", k); return 42; }',
                'Tally::Tally(int start) { printf("LIB %d\\n", start); t = 77; }',
@@ -1489,7 +1494,7 @@ def native_call(w):
                 return "%s: the library received %r natively, the call supplies %r" % (call, got, want)
             res = [l for l in out.splitlines() if l.startswith("RESULT")]
             expect = {"Tally.own": "44", "Tally.bumpBy": "43", "Tally.reset": "None", "Tally.ratio": "3.5", "bump": "(6, [4, 4])", "findPos": "18446744073709551615", "Tally.total": "41", "Tally.scaled": "42", "tag": "(100, 'ab\\x00cd')", "countNames": "23", "add": "7", "scale": "2.5", "isPositive": "True", "noArgs": "None", "getName": "'nm'", "setName": "None", "len": "3",
-                      "divmod": "(11, 13)", "divide": "(6, 13)", "stride": "9", "toggle": "4", "pick": "3" if w["supplied"] == 3 else "1"}
+                      "divmod": "(11, 13)", "divide": "(6, 13)", "clamp": "10", "stride": "9", "toggle": "4", "pick": "3" if w["supplied"] == 3 else "1"}
             if w["function"] == "bump" and lists:
                 li_ = [v_ for v_ in lists.values() if v_ != "not a sequence"][0]
                 lv_ = [v_ for k_, v_ in (w.get("list_values") or {}).items() if lists.get(k_) == li_]
